@@ -162,7 +162,9 @@ Proof.
     rewrite H, Z.eqb_refl. reflexivity.
   - exists (PBytes (zeros w)). split; reflexivity.
   - exists (PList (nrepeat (PInt 0) w)). split; [reflexivity|].
-    unfold v2b, val2bytes. cbn. apply arr_enc_zero.
+    unfold v2b, val2bytes. cbn.
+    assert (Hl: length (nrepeat (PInt 0) w) = w) by (induction w; simpl; auto).
+    rewrite Hl, Nat.eqb_refl. cbn [negb]. apply arr_enc_zero.
   - exists (PFloat (SpecFloat.S754_zero false)). split; [reflexivity|].
     destruct Hw as [-> | ->]; reflexivity.
 Qed.
